@@ -143,14 +143,38 @@ impl RdfPlanner {
         }
 
         // Create the lazy scanning operator
-        let operator = Box::new(RdfTripleScanOperator::new(
+        let operator: Box<dyn Operator> = Box::new(RdfTripleScanOperator::new(
             Arc::clone(&self.store),
             pattern,
             output_mask,
             self.chunk_size,
         ));
 
-        Ok((operator, columns))
+        // A variable that occurs more than once in the pattern (?x <p> ?x) must be bound to the
+        // same term at every position: keep the rows whose columns agree and emit the variable once.
+        let mut same: Vec<(usize, usize)> = Vec::new();
+        let mut keep: Vec<usize> = Vec::new();
+        for (i, name) in columns.iter().enumerate() {
+            match columns[..i].iter().position(|c| c == name) {
+                Some(first) => same.push((first, i)),
+                None => keep.push(i),
+            }
+        }
+        if same.is_empty() {
+            return Ok((operator, columns));
+        }
+        let filtered = Box::new(FilterOperator::new(
+            operator,
+            Box::new(SameTermPredicate { pairs: same }),
+        ));
+        let projected = Box::new(ProjectOperator::new(
+            filtered,
+            keep.iter().map(|&i| ProjectExpr::Column(i)).collect(),
+            vec![LogicalType::Any; keep.len()],
+        ));
+        let columns = keep.iter().map(|&i| columns[i].clone()).collect();
+
+        Ok((projected, columns))
     }
 
     /// Builds a TriplePattern from a TripleScanOp.
@@ -2318,6 +2342,22 @@ impl RdfExpressionPredicate {
 impl Predicate for RdfExpressionPredicate {
     fn evaluate(&self, chunk: &DataChunk, row: usize) -> bool {
         matches!(self.eval(chunk, row), Some(Value::Bool(true)))
+    }
+}
+
+/// Keeps the rows in which the given pairs of columns hold the same term
+/// (a variable repeated within one triple pattern).
+struct SameTermPredicate {
+    pairs: Vec<(usize, usize)>,
+}
+
+impl Predicate for SameTermPredicate {
+    fn evaluate(&self, chunk: &DataChunk, row: usize) -> bool {
+        self.pairs.iter().all(|&(a, b)| {
+            let left = chunk.column(a).and_then(|c| c.get_value(row));
+            let right = chunk.column(b).and_then(|c| c.get_value(row));
+            left.is_some() && left == right
+        })
     }
 }
 
